@@ -62,7 +62,7 @@ theorem DUse.snk (s : Nat) (cl : Client) (rs : DevState) : ∀ a ∈ snkActs s, 
     obtain ⟨hok, h0, hle, hcv⟩ := hrm hm0
     constructor
     all_goals (try simp only [hcv])
-    all_goals (first | assumption | ((try simp only [snkHold, srcHold] at *) <;> grind) | (trace_state; sorry))
+    all_goals (first | assumption | ((try simp only [snkHold, srcHold] at *) <;> grind))
   case inr.inr.inr.inr.inr.inl =>
     have hm0 : (nth st.sinkCh.rds 0).mapped = false := by
       cases hm : (nth st.sinkCh.rds 0).mapped with
@@ -74,8 +74,8 @@ theorem DUse.snk (s : Nat) (cl : Client) (rs : DevState) : ∀ a ∈ snkActs s, 
     obtain ⟨hok, h0, hle, hcv⟩ := hrm hm0
     constructor
     all_goals (try simp only [hcv])
-    all_goals (first | assumption | ((try simp only [snkHold, srcHold] at *) <;> grind) | (trace_state; sorry))
-  all_goals (first | (constructor <;> (first | assumption | ((try simp only [snkHold, srcHold] at *) <;> grind))) | (trace_state; sorry))
+    all_goals (first | assumption | ((try simp only [snkHold, srcHold] at *) <;> grind))
+  all_goals (first | (constructor <;> (first | assumption | ((try simp only [snkHold, srcHold] at *) <;> grind))))
 
 set_option maxHeartbeats 4000000 in
 theorem DUse.src (s : Nat) (cl : Client) (rs : DevState) : ∀ a ∈ srcActs s, ∀ st, a.guard st = true → TInv s st cl rs → st.cam.failAt = none → st.cam.emptyEvery = 0 →
@@ -123,7 +123,7 @@ theorem DUse.src (s : Nat) (cl : Client) (rs : DevState) : ∀ a ∈ srcActs s, 
     constructor
     all_goals (try simp only [hcv])
     all_goals (first | assumption | ((try simp only [srcHold] at *) <;> grind))
-  all_goals (first | (constructor <;> (first | assumption | ((try simp only [srcHold] at *) <;> grind))) | (trace_state; sorry))
+  all_goals (first | (constructor <;> (first | assumption | ((try simp only [srcHold] at *) <;> grind))))
 
 theorem runmap1_bad {c : Sys} (_h : Ok c) (k : Nat) (hn : (cv c).nrd ≤ 1) : (step c (.runmap 1 k)).1 = c :=
   step_runmap_bad c 1 k hn
